@@ -450,6 +450,18 @@ class ClusterFam(Family):
         m = Model()
         try:
             count = 150 if quick else 5000
+            if self.focus == "c06":
+                # C06's chain-order clause: only the runs in which a replica lags and can fetch only the
+                # newest blocks (executing must wait for the missing ancestors)
+                for k in range(24 if quick else 600):
+                    scheme = rng.choice(["ecdsa", "eddsa", "eddsa"])
+                    n = rng.choice([4, 4, 5, 7])
+                    rules = rng.choice(RULES[:2])
+                    m.ask("reset")
+                    ld = rng.choice([None] + list(range(1, n + 1))) if n >= 5 else rng.randrange(1, n + 1)
+                    p = ClusterPlay(m, rng, scheme, n, rules, 0, agg=0, leader=ld)
+                    yield (f"cl-gap-{scheme}-{rules}-n{n}-{k}", p.run(rng.randrange(3, 8), gap=True))
+                return
             for k in range(count):
                 scheme = rng.choice(["ecdsa", "ecdsa", "eddsa", "eddsa", "eddsa"] + (["bls12"] if k % 10 == 0 else []))
                 n = rng.choice([4, 4, 4, 4, 5, 7])
